@@ -301,6 +301,10 @@ def splice_fn(it_spec, item, contract, unit, em, extraction, active=None):
             em.add("    " + c.text.rstrip(), item=key, part="sigtail", origin=c.origin)
     # loops: splice from the last to the first so offsets stay valid
     body = splice_loops(body, contract, key, active)
+    ex = select(contract.get("exit"), active) if contract is not None else []
+    if ex:
+        i = body.rstrip().rfind("}")
+        body = body[:i] + "\n" + "\n".join("/*@hint exit*/ " + c.text for c in ex) + "\n" + body[i:]
     # entry
     entry = select(contract.get("entry"), active) if contract is not None else []
     if entry:
@@ -358,7 +362,7 @@ def splice_loops(body, contract, key, active=None):
         return body
     wanted = set()
     for sec in contract.sections:
-        m = re.match(r"(loop|loopend|afterloop|beforeloop)\s+(\d+)$", sec)
+        m = re.match(r"(loop|loopend|loopstart|afterloop|beforeloop)\s+(\d+)$", sec)
         if m:
             wanted.add(int(m.group(2)))
     if wanted and max(wanted) > len(lp):
@@ -372,7 +376,8 @@ def splice_loops(body, contract, key, active=None):
         inv = select(contract.get("loop %d" % n), active)
         if inv:
             ins.append((ob, "\n/*@loop %d*/\n" % n + loop_clause_text(inv) + "\n/*@endloop*/\n"))
-        for sec, off, nm in (("loopend", cb, "loopend"), ("afterloop", cb + 1, "afterloop"), ("beforeloop", kw, "beforeloop")):
+        for sec, off, nm in (("loopend", cb, "loopend"), ("afterloop", cb + 1, "afterloop"), ("beforeloop", kw, "beforeloop"),
+                             ("loopstart", ob + 1, "loopstart")):
             le = select(contract.get("%s %d" % (sec, n)), active)
             if le:
                 ins.append((off, "\n" + "\n".join("/*@hint %s%d*/ %s" % (nm, n, c.text) for c in le) + "\n"))
